@@ -618,3 +618,10 @@ Definition generate_qpd_weights (bases : list (list Q)) (perms : list (list nat)
   | None => None
   | Some r => Some (res_map final_sort r)
   end.
+
+(* weight reported for a joint map in a returned dictionary (0 when absent) *)
+Definition weight_of (d : wdict) (k : key) : Q := match dget d k with Some (w, _) => w | None => 0 end.
+
+(* the dictionary _generate_qpd_weights returns after sampling: retval with the samples inserted *)
+Definition final_dict (ret : wdict) (ssw : Q) (s : list (key * nat)) : wdict :=
+  match insert_samples ret ssw s with Some r => r | None => [] end.
